@@ -125,7 +125,19 @@ def base_spec(draw, max_n=40):
     spec['rexc'] = draw(st.sampled_from([True, True, False]))
     spec['delays'] = draw(sl.delays_strategy(6))
     spec['cons_delays'] = draw(sl.delays_strategy(3))
+    # a source slower than the workers leaves the hand-off queue empty while the consumer waits on it
+    spec['src_delays'] = draw(st.one_of(st.just([0.0]), st.just([0.0]), sl.delays_strategy(4)))
     return spec
+
+
+def slow_source(xs, delays):
+    import time
+
+    for i, x in enumerate(xs):
+        d = delays[i % len(delays)]
+        if d > 0:
+            time.sleep(d)
+        yield x
 
 
 def check_outputs(spec, outs, term, calls_log, sim_out):
@@ -238,7 +250,7 @@ def run_f1(spec):
 
         rt = threading.Thread(target=resolver, name='harness-resolver')
         rt.start()
-        it = fifo_stream(iter(xs), func, capacity=spec['capacity'], return_x=spec['rx'], return_exceptions=spec['rexc'], preprocessor=pre)
+        it = fifo_stream(slow_source(xs, spec.get('src_delays', [0.0])), func, capacity=spec['capacity'], return_x=spec['rx'], return_exceptions=spec['rexc'], preprocessor=pre)
         outs, term = sl.consume(it, {'kind': 'all'}, spec['cons_delays'])
         it.close()
         with cond:
@@ -258,7 +270,7 @@ def run_f1(spec):
     return CaseInfo(
         nontrivial=inv >= 1 and n > spec['capacity'],
         descriptor=['F1', spec['xs'], spec['capacity'], box['resolved'][:40], spec['rx'], spec['rexc'], spec['pre']],
-        classes=(f"cap{min(spec['capacity'], 4)}", 'inv' if inv else 'noinv', 'wrap' if n > spec['capacity'] + 1 else 'nowrap', f"pre_{spec['pre']}", 'failprop' if term != 'end' else 'full'),
+        classes=(f"cap{min(spec['capacity'], 4)}", 'inv' if inv else 'noinv', 'wrap' if n > spec['capacity'] + 1 else 'nowrap', f"pre_{spec['pre']}", 'failprop' if term != 'end' else 'full', 'slow_source' if max(spec.get('src_delays', [0.0])) > 0 else 'fast_source', 'source_stall_1s' if max(spec.get('src_delays', [0.0])) >= 1.0 else 'no_stall'),
         metrics={'inversions': inv, 'steps': out.sim.steps, 'n': n},
         sample={'xs': spec['xs'][:12], 'capacity': spec['capacity'], 'completion_order': box['resolved'][:20], 'outs': outs[:6], 'term': term},
     )
@@ -287,7 +299,7 @@ def run_f2(spec):
         kw['preprocessor'] = pre
 
     def scenario():
-        s = Stream(xs)
+        s = Stream(slow_source(xs, spec.get('src_delays', [0.0])))
         if spec['mode'] == 'thread':
             s.parmap(make_f(spec['fails'], spec['exc'], spec['delays'], log), executor='thread', concurrency=spec['c'], return_x=spec['rx'], return_exceptions=spec['rexc'], **kw)
         else:
@@ -321,7 +333,7 @@ def run_f2(spec):
     return CaseInfo(
         nontrivial=inv >= 1 and n > cap,
         descriptor=['F2', spec['mode'], spec['xs'], spec['c'], comp[:40], spec['rx'], spec['rexc'], spec['pre']],
-        classes=(f"mode_{spec['mode']}", f"c{spec['c']}", 'inv' if inv else 'noinv', 'wrap' if n > cap + 1 else 'nowrap', f"pre_{spec['pre']}", 'failprop' if term != 'end' else 'full'),
+        classes=(f"mode_{spec['mode']}", f"c{spec['c']}", 'inv' if inv else 'noinv', 'wrap' if n > cap + 1 else 'nowrap', f"pre_{spec['pre']}", 'failprop' if term != 'end' else 'full', 'slow_source' if max(spec.get('src_delays', [0.0])) > 0 else 'fast_source', 'source_stall_1s' if max(spec.get('src_delays', [0.0])) >= 1.0 else 'no_stall'),
         metrics={'inversions': inv, 'steps': out.sim.steps, 'n': n},
         sample={'mode': spec['mode'], 'xs': spec['xs'][:12], 'c': spec['c'], 'delays': spec['delays'], 'outs': outs[:6], 'term': term, 'inversions': inv},
     )
